@@ -791,3 +791,21 @@ def run(ctx):
         not_modelled=['callbacks (hello / bye / probe / resolve-match)', 'search_services timing loops', 'UDP sockets, retransmission (C15)',
                       'XML parsing and schema validation (the real parser is crossed, not modelled)',
                       'ldap / uuid matching rules of WS-Discovery (the code applies the RFC 3986 rule to them)'])
+
+
+def replay(ctx, rep):
+    """./check C14 --replay <file>: run the recorded case again on the implementation and print what it does."""
+    stream, case = rep.get('stream'), rep.get('case')
+    if not case or stream not in ('pairs', 'sequence'):
+        print(json.dumps(rep, indent=1)[:4000])
+        return 0
+    if stream == 'pairs':
+        impl = ctx.impl('c14_impl', {'pairs': [{k_: case[k_] for k_ in ('mb', 'a', 'b')}]})
+        now = impl.get('pairs', impl)
+    else:
+        impl = ctx.impl('c14_impl', {'seqs': [case]})
+        now = impl.get('seqs', impl)
+    print(f'stream {stream}; case: {json.dumps(case)[:3000]}')
+    print('implementation now:', json.dumps(now)[:4000])
+    print('recorded          :', json.dumps(rep.get('impl_trace'))[:4000])
+    return 0
